@@ -19,9 +19,14 @@ WORK = os.path.join(ROOT, ".work")
 NPROC = int(os.environ.get("VERIF_JOBS", "16"))
 
 
+REPO = os.environ.get("VERIF_REPO", "/repo")          # the tree under test (default: /repo itself)
+OUT = os.environ.get("VERIF_OUT", ROOT)               # where evidence/ and replays/ are written
+
+
 def _env(symbolic: bool):
     env = dict(os.environ)
-    env["PYTHONPATH"] = ROOT
+    # the tree under test must shadow the copy that /venv's typelib.pth points to
+    env["PYTHONPATH"] = os.path.join(REPO, "src") + os.pathsep + ROOT
     env["TZ"] = "UTC"
     env["PYTHONHASHSEED"] = "0"
     env["PYTHONDONTWRITEBYTECODE"] = "1"
@@ -111,7 +116,7 @@ def run_property(prop: str, tier: str, seed: int, only=None) -> int:
     # -- replay candidates natively ----------------------------------------------------------------------
     kf_open = findings.load_known(prop)
     violations, spurious, known_seen = [], [], {}
-    rdir = os.path.join(ROOT, "replays", prop)
+    rdir = os.path.join(OUT, "replays", prop)
     for r in results:
         for k in r.get("known", []):
             known_seen.setdefault(k["kf"], {"cond": r["cond"], "args": k["args"]})
@@ -217,8 +222,8 @@ def run_property(prop: str, tier: str, seed: int, only=None) -> int:
         "wall_s": round(time.time() - t0, 2),
         "violations": len(violations),
     }
-    os.makedirs(os.path.join(ROOT, "evidence"), exist_ok=True)
-    json.dump(ev, open(os.path.join(ROOT, "evidence", f"{prop}.json"), "w"), indent=1)
+    os.makedirs(os.path.join(OUT, "evidence"), exist_ok=True)
+    json.dump(ev, open(os.path.join(OUT, "evidence", f"{prop}.json"), "w"), indent=1)
     print(f"[{prop}/{tier}] obligations={len(results)} discharged={len(closed)} inconclusive={len(inconc)} "
           f"paths={paths} reached={reached} violations={len(violations)} wall={ev['wall_s']}s")
     for r in inconc:
